@@ -6,7 +6,9 @@ import json, os, sys
 sys.path.insert(0, os.path.join(os.path.dirname(os.path.dirname(os.path.abspath(__file__))), "tools"))
 import frrparse as fp
 
-CLOSURE = ["Model/FrrAst.v", "Model/FrrRender.v", "Model/FrrSem.v", "Model/FrrK8s.v", "Proofs/FrrSortP.v", "Proofs/FrrK8sP.v"]
+CLOSURE = ["Model/FrrAst.v", "Model/FrrRender.v", "Model/FrrSem.v", "Model/FrrSpec.v", "Model/FrrK8s.v", "Proofs/FrrSortP.v", "Proofs/FrrK8sP.v",
+           "Proofs/FrrP.v", "Proofs/FrrListsP.v", "Proofs/FrrShapeP.v", "Proofs/FrrSemP.v", "Proofs/FrrOutP.v", "Proofs/FrrExactP.v",
+           "Proofs/FrrK8sEqP.v"]
 COQ_FILES = ["Corr/Run_FrrK8s.v"]
 PKG = "internal/bgp/frrk8s"
 EXTRA_ROUTES = ["203.0.113.0/24", "2001:db8:ffff::/48"]
@@ -210,6 +212,9 @@ def run(ctx):
             mism = ctx.coq_cases("Run_FrrK8s", "kcase", terms, shard=40, header="Open Scope string_scope.")
             byid = {c["id"]: c for c in cases + pwcases}
             seen = set()
+            outside = [m for m in mism if m % 10 == 9]
+            state["outside_wf"] = state.get("outside_wf", 0) + len(outside)
+            mism = [m for m in mism if m % 10 != 9]
             for m in mism:
                 cid, k = m // 10, m % 10
                 if k in seen:
@@ -236,6 +241,7 @@ def run(ctx):
     distinct = len({json.dumps(c["in"].get("sessions", c["in"]), sort_keys=True) for c in cases
                     if "sessions" not in c["in"] or any(s["advs"] for s in c["in"]["sessions"])})
     ctx.cov["correspondence"] = {"cases": len(cases), "mismatches": len(mism), "oracle_evaluations(neighbor x route)": state["evals"],
+                                 "cases_outside_premises_of_C15_k8s_eq_frr(decided in Coq)": state.get("outside_wf", 0),
                                  "generator_counters": st}
     ctx.trusted += [
         "H-sort: sort.Strings / sort.Slice on distinct keys return the sorted list (insertion sort in the model)",
